@@ -6,6 +6,7 @@ from ..rules import symmetry
 def run(F, G, tier, seed):
     chk = Check("C14", tier, "proof", seed)
     symmetry.run(chk, F)
+    symmetry.run_decomp(chk, F)
     chk.assume("abstract type domain: a type is identified by its base kind; structure below it (ranges, record "
                "fields, labels) is an opaque atom whose two truth values are both explored")
     return chk.finish(
